@@ -72,3 +72,11 @@ fn closed_async_receiver_rejects_recv_future() {
   }
   assert_eq!(rx2.try_recv(), Ok(5));
 }
+
+#[test]
+fn closed_mpsc_receiver_rejects_recv_timeout() {
+  let (tx, rx) = fibre::mpsc::bounded::<u32>(2);
+  tx.try_send(5).unwrap();
+  rx.close().unwrap();
+  assert!(rx.recv_timeout(std::time::Duration::from_millis(10)).is_err(), "a closed mpsc Receiver took a value through recv_timeout");
+}
